@@ -8015,7 +8015,7 @@ class IdentifierPreparer:
     def _render_schema_translates(
         self, statement: str, schema_translate_map: SchemaTranslateMapType
     ) -> str:
-        d = schema_translate_map
+        d = dict(schema_translate_map)
         if None in d:
             if not self._includes_none_schema_translate:
                 raise exc.InvalidRequestError(
